@@ -86,6 +86,23 @@ def scenarios(tier, rng):
                                            {"op": "list", "dir": "@A"}]},
                                   {"ops": [{"op": "list", "dir": "@A"}, restore_op(True), {"op": "solve", "k": BIG},
                                            {"op": "wait"}, {"op": "list", "dir": "@A"}]}]))
+    # a restore issued while the final asynchronous save of the writer is still in flight (no wait in between)
+    for kind, pname in (("VI", "forest"), ("PI", "tabular"), ("PVI", "forest12")):
+        pspec, full = P[pname]
+        out.append(base_scenario(f"{kind}-{pname}-restore-while-save-in-flight", kind, pname, pspec, full, 1, 3, True,
+                                 [{"ops": [{"op": "new"}, {"op": "solve", "k": 5}, {"op": "list", "dir": "@A"}, restore_op(full),
+                                           {"op": "wait"}, {"op": "list", "dir": "@A"}]}], fs_delay_us=150000))
+    # two different configurations on ONE directory: a hand-built second solver (tighter epsilon) loads the first
+    # solver's checkpoint and writes newer ones; restore() must then reproduce the SECOND configuration
+    pspec, full = P["forest12"]
+    for kind in ("VI", "SAVI"):
+        out.append(base_scenario(f"{kind}-forest12-second-config-on-same-dir", kind, "forest12", pspec, True, 1, 2, False,
+                                 [{"ops": [{"op": "new", "kw": {"epsilon": 1.0}}, {"op": "solve", "k": 2}, {"op": "wait"},
+                                           {"op": "list", "dir": "@A"}]},
+                                  {"ops": [{"op": "list", "dir": "@A"}, {"op": "load", "dir": "@A"}, {"op": "solve", "k": 2},
+                                           {"op": "wait"}, {"op": "list", "dir": "@A"}]},
+                                  {"ops": [{"op": "list", "dir": "@A"}, restore_op(True), {"op": "solve", "k": BIG},
+                                           {"op": "wait"}, {"op": "list", "dir": "@A"}]}]))
     # error paths
     pspec, full = P["tabular"]
     out.append(base_scenario("VI-tabular-restore-without-config", "VI", "tabular", pspec, False, 1, 2, False,
